@@ -172,8 +172,12 @@ pub mod implementations {
             .context("Expected an operation [+=,-=,*=,/=,%=]")?;
 
         if let Some(name) = args.get(1) {
+            // same lexical order as `load`: own frames, captured variables, then callers' frames
             let bundle = ctx
-                .load_variable(name)
+                .load_local(name)
+                .ok()
+                .or_else(|| ctx.load_callback_variable(name).ok())
+                .or_else(|| ctx.load_variable(name))
                 .with_context(|| format!("{name} has not been mapped"))?;
             let value: &mut Primitive = ctx
                 .get_last_op_item_mut()
